@@ -6,7 +6,7 @@ dir=$(readlink -f $1); shift
 prop=$(python3 -c "import json;print(json.load(open('$dir/meta.json'))['property'])")
 checks="$prop $*"
 wt=/tmp/se-$$-$(basename $(dirname $dir))-$(basename $dir)
-git -C /repo worktree add -q --detach $wt HEAD || exit 3
+git -C /repo worktree add -q --detach $wt ${BASE:-HEAD} || exit 3
 trap 'git -C /repo worktree remove --force '$wt' 2>/dev/null; rm -rf '$wt' /tmp/se-demo-$$' EXIT
 git -C $wt apply $dir/patch.diff || { echo "PATCH DOES NOT APPLY"; exit 3; }
 echo "== $dir ($prop): $(git -C $wt diff --stat | tail -1)"
